@@ -93,7 +93,9 @@ pub fn fold_binop(lhs: &ExprV, op: &Op, rhs: &ExprV) -> (r: Result<ConstexprEval
                 (lit_op(op_code(*op), a, b) is Err ==> r is Err)
                 && (lit_op(op_code(*op), a, b) is Ok ==> r == Ok::<ConstexprEvaluation, VErr>(ConstexprEvaluation::Owned(Value::Number(lit_op(op_code(*op), a, b)->Ok_0))))
             }} else {{
-                r == Ok::<ConstexprEvaluation, VErr>(ConstexprEvaluation::Impossible)
+                // anything else may only fold when BOTH operands are compile-time constants (an operand that is not -- a call, a variable -- is
+                // evaluated at run time, exactly once: C15); what two non-numeric constants fold to is not this unit's business
+                r is Ok && (r->Ok_0 is Owned ==> folded(lhs)->Ok_0 is Owned && folded(rhs)->Ok_0 is Owned)
             }}),
 {{
 {render(bb, 1)}
@@ -102,10 +104,10 @@ pub fn fold_binop(lhs: &ExprV, op: &Op, rhs: &ExprV) -> (r: Result<ConstexprEval
 fn main() {{}}
 """
     obls = [Obl("C06.walk.unary-minus", ["C06"], fn="Expr::try_constexpr_eval[UnaryMinus]", desc="folding `-e`: the negation of the folded operand (Impossible / error propagate)"),
-            Obl("C06.walk.binop", ["C06"], fn="Expr::try_constexpr_eval[BinOp]", desc="folding `a op b`: both operands folded to numbers, the source operator mapped to its own arithmetic, operands in order; anything else is not folded")]
+            Obl("C06.walk.binop", ["C06", "C15"], fn="Expr::try_constexpr_eval[BinOp]", desc="folding `a op b`: both operands folded to numbers, the source operator mapped to its own arithmetic, operands in order; anything else is not folded")]
     return gen, obls, log
 
 
-UNITS = [VUnit("c06_walk", ["C06"], "the folding walk: unary minus and binary operators over folded operands", build)]
+UNITS = [VUnit("c06_walk", ["C06", "C15"], "the folding walk: unary minus and binary operators over folded operands", build)]
 UNITS[0].assumes = ["fragments: the two arms of Expr::try_constexpr_eval; the recursive fold of sub-expressions, Value::for_type / try_negate (C06.negate) and the literal arithmetic (C06.<op>.*) are abstract callees",
                     "UnaryNot, UnaryUnwrap, NilEval arms and Value / List folding are not covered"]
